@@ -7,8 +7,8 @@
     - Available() of a second allocator opened on the same bytes after every
       call, and - where the harness recovered it - the set of allocated indices
       of an allocator opened on a copy of the bytes (recovered through FreeBlock),
-    - at the end the content of the blocks the user wrote (first/last byte,
-      uniform), read back through Block().
+    - at the end the content of the blocks the user wrote (first byte, last
+      byte, sum of all bytes), read back through Block().
     Concurrent cases carry what 8 goroutines ended up holding; the check is the
     set bookkeeping a sequential history must satisfy. *)
 From Coq Require Import List ZArith NArith Bool.
@@ -54,7 +54,7 @@ Record ostep := mkStep {
 }.
 
 (* a block read back at the end through Block(idx) *)
-Record fread := mkRead { f_idx : Z; f_first : N; f_last : N; f_uniform : bool }.
+Record fread := mkRead { f_idx : Z; f_first : N; f_last : N; f_sum : N (* sum of all bytes of the block *) }.
 
 Record seqcase := mkSeq {
   q_page : Z; q_bs : Z; q_size : Z; q_fit : bool;
@@ -146,12 +146,18 @@ Fixpoint check_steps (page : Z) (fit : bool) (b : blocks) (sp : aspec) (l : list
       else (false, b')
   end.
 
+Fixpoint sum_bytes (n : nat) (buf : buffer) (off : Z) (acc : N) : N :=
+  match n with
+  | O => acc
+  | S n' => sum_bytes n' buf (off + 1) (acc + bget buf off)%N
+  end.
+
 Definition check_read (b : blocks) (r : fread) : bool :=
   let o := block_off b (f_idx r) in
   (0 <=? f_idx r) && (f_idx r <? blocks_count b)
   && (bget (bts b) o =? f_first r)%N
   && (bget (bts b) (o + blkSize b - 1) =? f_last r)%N
-  && f_uniform r && (f_first r =? f_last r)%N.
+  && (sum_bytes (Z.to_nat (blkSize b)) (bts b) o 0 =? f_sum r)%N.
 
 Definition check_seq (c : seqcase) : bool :=
   match new_blocks (q_page c) (q_bs c) (init_buffer (q_size c) (q_init c)) (q_fit c), q_ctor c with
